@@ -275,6 +275,13 @@ fn one_case(ctx: &Ctx, case: u64, l: &mut Local) {
             variants.push(("wrap", d.replace('-', "+").replace('_', "/")));
         }
         variants.push(("wrap", format!("%{:02X}{}", d.as_bytes()[0], &d[1..])));
+        // JSON form only: ONE list entry that holds the compact separator next to the genuine text (in the
+        // compact form this would simply be the genuine disclosure and an empty one)
+        if cfg.fmt == model::Fmt::Json {
+            variants.push(("wrap", format!("{d}~")));
+            variants.push(("wrap", format!("~{d}")));
+            variants.push(("wrap", format!("{d}~{}", genuine[(i + 1) % n])));
+        }
         variants.push(("truncate", d[..d.len() - 1].to_string()));
         if d.len() > 8 {
             variants.push(("truncate", d[..d.len() - 4].to_string()));
